@@ -2,6 +2,7 @@ import Pcore.Proofs.LatFam
 import Pcore.Proofs.LatMono
 import Pcore.Proofs.LatGen
 import Pcore.Proofs.LatGenVar
+import Pcore.Proofs.LatCommonAll
 set_option linter.unusedSimpArgs false
 /-!
 # C04 — Inferred types contain their values; common type and generalisation are bounds
@@ -33,6 +34,9 @@ Full statement / proved / missing
   of the accumulator" + C01 + `C04_common_fam` (commonType is an upper bound on the family `Ty.Fam` of inferred types and stays inside it);
   `C04_ptype_of_family` — the same for values with type values, conditional on a family on which commonType is an upper bound;
   `C04_generalize_partial` — the sixth law for every type without Variant (and with finite Float bounds: the excluded case is the finding);
+  `C04_common_partial` — THE FIFTH LAW for ALL well-formed types without Unit (and, under the code's setting of the rule, without Struct):
+  every structural merge of `commonality.go` (Enum / String / Pattern / Integer / Float / Array / Tuple / Variant / Type / Iterable /
+  NotUndef) and the tail; the result is again well-formed and in the fragment (corollary of C03 stage 4: the Tuple fold needs transitivity);
   `C04_generalize_variant_partial` — the sixth law WITH Variant at any nesting (its `Generic()` removes members that became `Equals`: the
   kept member accepts the removed one's original by transitivity, C03 stage 4), on the fragment of transitivity `Ty.TA` (no Unit; no
   Struct under the code's setting of the rule), no Data / RichData below a decomposition;
@@ -41,7 +45,8 @@ Full statement / proved / missing
   empty string among them;
 * missing: the first law for values that hold TYPE values (commonType of two `Type[..]` recurses into arbitrary types: Tuple / Variant
   merges need transitivity stage 2), the second law for hashes with non-string / empty-string keys;
-  `C04_common` for the structural merges (Enum/String/Array/Tuple/Variant …); `C04_generalize` with Unit / Struct under the rule / aliases
+  `C04_common` with Unit nested inside an argument (Unit absorbs: e.g. a Variant with a Unit member accepts everything) or a Struct under
+  the code's setting of the rule; `C04_generalize` with Unit / Struct under the rule / aliases
   inside a Variant.  All six laws are evaluated on the
   implementation for every generated case.
 -/
@@ -108,6 +113,31 @@ theorem C04_ptype_of_family (cfg : Cfg) (sfh : Bool) (hl : ∀ s, (cfg.lower s).
 theorem C04_generalize_partial (cfg : Cfg) (sfh : Bool) (t : Ty) (wt : Ty.WF cfg t) (nt : t.NoAlias) (gt : t.GenOK) :
     asg cfg sfh (generalize t) t = true ∧ asg cfg sfh (genericType t) t = true :=
   gen_asg cfg sfh t.w t (Nat.le_refl _) wt nt gt
+
+/-- FIFTH LAW on the stage-4 fragment of transitivity (corollary of C03 stage 4): the common type accepts both arguments — and is again
+    well-formed and inside the fragment — for ALL well-formed types without Unit (`Ty.TA sfh`; under the code's setting `sfh = true` also
+    without Struct), every structural merge of `commonality.go` included: Enum ∪ Enum / String literal (case-insensitive Enums too),
+    String sizes, Pattern ∪ Pattern, Integer / Float hulls, Array, TUPLE (the element fold of `CommonElementType`: the accumulator
+    accepts the earlier element types only by transitivity), VARIANT (`UniqueTypes` keeps one of two `Equals` members, which accepts the
+    other), Type, Iterable, NotUndef, and the Numeric … Any tail.  `hidem`: `strings.ToLower` is idempotent (the merged case-insensitive
+    Enum stores lower-cased values). -/
+theorem C04_common_partial (cfg : Cfg) (sfh : Bool) (hl : ∀ s, (cfg.lower s).length = s.length)
+    (hidem : ∀ s, cfg.lower (cfg.lower s) = cfg.lower s) (a b : Ty)
+    (wa : Ty.WF cfg a) (wb : Ty.WF cfg b) (fa : a.TA sfh) (fb : b.TA sfh) :
+    asg cfg sfh (commonType cfg sfh a b) a = true ∧ asg cfg sfh (commonType cfg sfh a b) b = true ∧
+    Ty.WF cfg (commonType cfg sfh a b) ∧ (commonType cfg sfh a b).TA sfh := by
+  obtain ⟨g, u1, u2⟩ := common_all cfg sfh hl hidem (a.w + b.w + 2) a b ⟨wa, fa⟩ ⟨wb, fb⟩
+  exact ⟨u1, u2, g.1, g.2⟩
+
+/-- non-vacuity: two Tuples whose merge folds over three element types, and two Variants sharing a member -/
+example (cfg : Cfg) :
+    (Ty.tuple [.int ⟨0, 5⟩, .strVal "a"] none).TA true ∧ (Ty.tuple [.float 0 1] none).TA true ∧
+    (Ty.variant [.int ⟨0, 5⟩, .str]).TA true ∧ Ty.WF cfg (.variant [.int ⟨0, 5⟩, .float 0 1]) ∧
+    commonType cfg true (.variant [.int ⟨0, 5⟩, .str]) (.variant [.int ⟨0, 5⟩, .float 0 1]) =
+      .variant [.int ⟨0, 5⟩, .str, .float 0 1] := by
+  refine ⟨by simp [Ty.TA, I64.max], by simp [Ty.TA, I64.max], by simp [Ty.TA], by simp [Ty.WF], ?_⟩
+  simp [commonType, commonF, Ty.w, Ty.wl, Ty.isUnit, asg, asgRecv, asgAllR, asgAnyL, sameNullary, isStringFamily, uniqueTy, uniqueTyAux,
+    mkVariant, tyEq, Rng.sub]
 
 /-- sixth law WITH VARIANT (corollary of C03 stage 4): `Generic()` of a Variant generalises the members and removes those that became
     `Equals` to an earlier one (`UniqueTypes`); the kept member accepts the removed one's generalisation (equal types accept each other)
